@@ -160,7 +160,18 @@ func VC32_SNPFlags() {
 	e := l._getLSPDU(id)
 	if usePSNP {
 		if known {
-			vAssert(!c32Has(e.srmFlags, a), "C32.psnp.clears.srm")
+			// ISO 10589 7.3.15.2 b: an entry equal to the stored copy acknowledges it (SRM cleared); one that is older
+			// than the stored copy is answered with the stored copy (SRM set, SSN cleared); a newer one is requested
+			switch {
+			case s2 == s1:
+				vAssert(!c32Has(e.srmFlags, a), "C32.psnp.same.clears.srm")
+			case s1 > s2:
+				vAssert(c32Has(e.srmFlags, a), "C32.psnp.older.ack.keeps.srm")
+				vAssert(!c32Has(e.ssnFlags, a), "C32.psnp.older.ack.nossn")
+			default:
+				vAssert(!c32Has(e.srmFlags, a), "C32.psnp.newer.clears.srm")
+				vAssert(c32Has(e.ssnFlags, a), "C32.psnp.newer.requested")
+			}
 		} else {
 			vAssert(e == nil, "C32.psnp.unknown.ignored")
 		}
